@@ -368,7 +368,7 @@ Definition validate (T : vtables) (zq x64 virt_ok : bool) (inst : vinst) (ops : 
       end
     else if test iflags IF_Evex then
       if negb (vi_extra_type inst =? RT_Mask) then E_InvalidExtraReg else
-      if (vi_extra_id inst =? 0) || negb (test avx AF_K) then E_InvalidKMaskUse else E_Ok
+      if (vi_extra_id inst =? 0) || (7 <? vi_extra_id inst) || negb (test avx AF_K) then E_InvalidKMaskUse else E_Ok
     else E_InvalidExtraReg
   end.
 
